@@ -35,6 +35,8 @@ pub struct Task {
     pub blocked_on_sq: bool,
     /// Signal notifier (index) this task borrows.
     pub sig: Option<usize>,
+    /// Futures joined into one task share one waker: polled together.
+    pub group: Option<u32>,
 }
 
 /// A `ReadBuf` held by the application, with its reference model.
@@ -129,6 +131,10 @@ pub struct Engine {
     pub getevents_seen: u64,
     /// Quiescence was cut short: a blocking poll would never have returned.
     pub stuck: bool,
+    /// The ring was built disabled and has not been enabled yet.
+    pub disabled: bool,
+    /// Inside the joint poll of a task made of several futures.
+    pub in_group_poll: bool,
     pub sq_entries: u32,
     pub faults_on: bool,
     pub closes: Vec<Task>,
@@ -171,6 +177,7 @@ pub fn draw_kcfg(faults: bool) -> KCfg {
     c.p_zc_notif_same_batch = tape::pick(site::CFG, &[50, 0, 100]);
     c.p_close_err = if sw(15) { 30 } else { 0 };
     c.p_notif_survives = if sw(30) { 60 } else { 0 };
+    c.p_sync_direct_close_refused = if sw(15) { 40 } else { 0 };
     c.p_prep_fail = if sw(20) { tape::pick(site::CFG, &[15u32, 40]) } else { 0 };
     c.p_pipe_einval = if sw(25) { 40 } else { 0 };
     c.p_sync_cancel_finish = if sw(30) { 50 } else { 0 };
@@ -206,6 +213,9 @@ impl Engine {
         // work only run by io_uring_enter(GETEVENTS) with defer_task_run).
         let single = prof.sqpoll && !sqpoll && tape::chance(site::GEOM, 1, 6);
         let defer = single && tape::chance(site::GEOM, 1, 2);
+        // A ring that starts disabled (IORING_SETUP_R_DISABLED): operations can
+        // be queued, io_uring_enter is refused (EBADFD) until Ring::enable.
+        let disabled = prof.sqpoll && tape::chance(site::GEOM, 1, 12);
         kernel::with(|k| k.cfg = kcfg);
         trace(&[tag::CFG, sq, cq, u32::from(direct), u32::from(sqpoll) + 2 * u32::from(single) + 4 * u32::from(defer)]);
         ev!("h config sq={sq} cq={cq} direct={direct} sqpoll={sqpoll} single_issuer={single} defer={defer}");
@@ -226,6 +236,9 @@ impl Engine {
             if defer {
                 c = c.defer_task_run();
             }
+            if disabled {
+                c = c.disable();
+            }
             c.build()
         });
         let ring = match ring {
@@ -235,7 +248,12 @@ impl Engine {
                 return None;
             }
         };
-        Some(Engine::from_ring(ring, prof, sq, direct))
+        let mut e = Engine::from_ring(ring, prof, sq, direct);
+        e.disabled = disabled;
+        if disabled {
+            ev!("h the ring starts disabled");
+        }
+        Some(e)
     }
 
     /// Build the engine around an existing ring.
@@ -307,6 +325,8 @@ impl Engine {
             sq_dropped: false,
             getevents_seen: 0,
             stuck: false,
+            disabled: false,
+            in_group_poll: false,
             sq_entries: sq,
             faults_on: true,
             closes: Vec::new(),
@@ -428,6 +448,20 @@ impl Engine {
         stats::inc(C::total_ops_created);
         trace(&[tag::CREATE, kind as u32]);
         ev!("h create op#{id} {}{}", made.name, fd.map_or(String::new(), |f| format!(" on fd-slot {f}")));
+        // Now and then the new future is joined with the previous one (a
+        // `join!`/`select!` style task): both are polled with the very same
+        // waker, and always together.
+        let mut group = None;
+        let mut wakers = TaskWakers::new(id);
+        if tape::chance(site::WAKER, 1, 6) {
+            if let Some(prev) = self.tasks.iter_mut().rev().find(|t| !t.dropped && !t.finished && !t.polled && t.wakers.twin.is_none()) {
+                let g = prev.group.unwrap_or(prev.id);
+                prev.group = Some(g);
+                group = Some(g);
+                wakers.current = prev.wakers.current.clone();
+                stats::inc(C::probe_waker_shared);
+            }
+        }
         self.tasks.push(Task {
             id,
             kind,
@@ -435,7 +469,7 @@ impl Engine {
             task: Some(made.task),
             expect: made.expect,
             fd,
-            wakers: TaskWakers::new(id),
+            wakers,
             polled: false,
             last_pending: false,
             last_item: false,
@@ -445,6 +479,7 @@ impl Engine {
             matched: 0,
             blocked_on_sq: false,
             sig: if kind == Kind::ReceiveSignal { pool } else { None },
+            group,
         });
     }
 
@@ -455,11 +490,24 @@ impl Engine {
     }
 
     pub fn poll_task(&mut self, i: usize) {
+        if let (Some(g), false) = (self.tasks[i].group, self.in_group_poll) {
+            // All futures of the task, with the one waker cleared once.
+            let members: Vec<usize> = (0..self.tasks.len())
+                .filter(|m| self.tasks[*m].group == Some(g) && !self.tasks[*m].dropped && !self.tasks[*m].finished)
+                .collect();
+            self.tasks[i].wakers.clear();
+            self.in_group_poll = true;
+            for m in members {
+                self.poll_task(m);
+            }
+            self.in_group_poll = false;
+            return;
+        }
         let id = self.tasks[i].id;
         if self.tasks[i].dropped || self.tasks[i].finished {
             return;
         }
-        if self.tasks[i].polled && tape::chance(site::WAKER, 1, 4) {
+        if self.tasks[i].polled && self.tasks[i].group.is_none() && tape::chance(site::WAKER, 1, 4) {
             // The future moved to another task: new waker, old one is stale.
             let fired = self.tasks[i].wakers.fired();
             if tape::chance(site::WAKER, 1, 3) {
@@ -472,7 +520,9 @@ impl Engine {
                 self.tasks[i].wakers.current.fired.store(1, std::sync::atomic::Ordering::Release);
             }
         }
-        self.tasks[i].wakers.clear();
+        if !self.in_group_poll {
+            self.tasks[i].wakers.clear();
+        }
         let waker = self.tasks[i].wakers.waker();
         let mut cx = Context::from_waker(&waker);
         let mut produced = Vec::new();
@@ -897,6 +947,15 @@ impl Engine {
             }
         }
         self.getevents_seen = kernel::with(|k| k.rings[self.ring_id].getevents_enters);
+        trace(&[tag::RINGPOLL, u32::from(res.is_err())]);
+        ev!("h ring.poll({timeout:?}) -> {res:?}");
+        if let Err(e) = &res {
+            let code = e.raw_os_error().unwrap_or(0);
+            let refused_disabled = self.disabled && code == libc::EBADFD;
+            if code != libc::EBUSY && code != libc::EINTR && code != libc::EAGAIN && !refused_disabled {
+                violation("panic", format!("Ring::poll failed: {e}"));
+            }
+        }
         self.check_wakeups();
     }
 
@@ -1038,6 +1097,7 @@ impl Engine {
                 matched: 0,
                 blocked_on_sq: false,
                 sig: None,
+                group: None,
             });
         } else {
             ev!("h drop fd-slot {f} ({}) room={room}", ops::canon_fd(n, d));
@@ -1401,6 +1461,7 @@ impl Engine {
             matched: 0,
             blocked_on_sq: false,
             sig: None,
+            group: None,
         });
     }
 
@@ -1528,6 +1589,7 @@ impl Engine {
                 matched: 0,
                 blocked_on_sq: false,
                 sig: None,
+                group: None,
             });
             self.poll_task(first + n as usize);
         }
@@ -1550,9 +1612,26 @@ impl Engine {
         kernel::with(|k| k.cfg.p_yield_act = keep);
     }
 
+    /// Enable a ring that was built disabled.
+    pub fn enable_ring(&mut self) {
+        if !self.disabled {
+            return;
+        }
+        self.disabled = false;
+        if let Some(ring) = self.w.ring.as_mut() {
+            ev!("h enable the ring");
+            if let Err(e) = alloc::a10(|| ring.enable()) {
+                violation("panic", format!("Ring::enable failed: {e}"));
+            }
+        }
+    }
+
     /// One step of the generated program.
     pub fn step(&mut self) {
         self.step_no += 1;
+        if self.disabled && tape::chance(site::STEP, 1, 4) {
+            self.enable_ring();
+        }
         stats::inc(C::total_steps);
         let p = &self.prof;
         let weights = [
@@ -1632,6 +1711,7 @@ impl Engine {
     /// executor alternates "poll woken tasks" with `Ring::poll`: every task
     /// must finish within a bounded number of rounds.
     pub fn quiesce(&mut self) {
+        self.enable_ring();
         ev!("h quiesce");
         kernel::with(|k| {
             let keep = k.cfg.clone();
@@ -1814,6 +1894,7 @@ impl Engine {
     /// before the descriptors they borrow, as safe code must); otherwise the
     /// ring goes last. Returns true if descriptors were dropped after the ring.
     pub fn teardown(&mut self, shuffle: bool) -> bool {
+        self.enable_ring();
         // Everything that is left - each task, each descriptor, the signal
         // handles, each held buffer, the pools, the Ring, and the harness's own
         // queue handle (so that a future can be the last user of the ring) - is
